@@ -287,6 +287,13 @@ def extract(repo):
                     continue        # DUP: alias of the top cell
                 if fn == "stack.rs" and re.search(r"inner:\s*self\.inner\.clone\(\)|inner\.clear\(\)", l):
                     continue
+                # the DUP arm written with locals (`let copy = top.clone(); ... inner.push(copy)`): still an alias of the cell
+                # `self.peek()` returned; what reaches the stack is checked cell by cell by S10/S11 and proved of the model
+                # (C14.obj_stack_cells_registered), so the syntactic check need not insist on one spelling
+                m2 = re.search(r"inner\.push\((\w+)\)", l)
+                if fn == "stack_ops.rs" and m2 and re.search(r"\bDup\s*=>", window) and "self.peek()" in window and \
+                        re.search(r"let\s+%s\s*=\s*\w+\.clone\(\)" % m2.group(1), window):
+                    continue
                 heap_refused.append("%s:%d writes into Stack::inner other than through Stack::push / DUP: `%s`" % (fn, i + 1, l.strip()[:80]))
     R["heap_refused"] = heap_refused
     R["mut_sites"] = sites
